@@ -2,6 +2,7 @@
 From Coq Require Import List String Ascii ZArith. Import ListNotations.
 From Coq Require Import List Bool.
 From SV Require Import Lib.Str Model.Types Model.Api Model.Back Model.Doc Proofs.GenProofs Proofs.DocProofs.
+From SV Require Import Model.Api Model.FrontSmall Model.View Model.Front Proofs.FrontProofs.
 
 (* line for line: the comment body is the first line of the (newline-stripped) description followed by every further
    line behind the comment decoration, blank lines included *)
@@ -35,9 +36,30 @@ Theorem C13_lookup_same_name_refuted :
   lookup_doc root (K"pkg.foo.foo") = Ok (Some (K"Module foo doc.")).
 Proof. exact lookup_same_name_refuted. Qed.
 
+(* ANALYZER SIDE: the documentation stored with a class, a function (and its result entries) and a parameter is the
+   docstring parser's answer for that declaration's own qualified name; the answers are not part of the walk's state, so the
+   order in which declarations are analysed cannot move a text to another element (the parser's own one-entry cache is the
+   cache_transparent theorem above) *)
+Theorem C13_front_class_doc : forall al d st c st' w,
+  enter_class al d st c = Ok (st', w) ->
+  exists cl rest, vs_stack st' = FClass cl :: rest /\ doc_class d (cd_fullname c) = Ok (c_doc cl).
+Proof. exact class_doc_by_own_name. Qed.
+Theorem C13_front_function_doc : forall al d pref warn st f st' w,
+  enter_func al d pref warn st f = Ok (st', w) ->
+  exists fn rest, vs_stack st' = FFunc fn :: rest /\ doc_func d (fn_fullname f) = Ok (f_doc fn) /\
+                  doc_results d (fn_fullname f) = Ok (f_rdocs fn).
+Proof. exact function_doc_by_own_name. Qed.
+Theorem C13_front_parameter_doc : forall env d st f fid a p tv lg amb,
+  parse_parameter env d st f fid a = Ok (p, tv, lg, amb) ->
+  exists pd cq, doc_param d (fn_fullname f) (ar_name a) cq = Ok pd /\
+                p_doc_type p = pd_type pd /\ p_doc_default p = pd_default pd /\ p_doc_desc p = pd_desc pd.
+Proof. exact parameter_doc_by_own_name. Qed.
 Print Assumptions C13_cache_transparent.
 Print Assumptions C13_cache_coherent.
 Print Assumptions C13_lookup_same_name_refuted.
 Print Assumptions C13_description_lines.
 Print Assumptions C13_single_line.
 Print Assumptions C13_no_description_no_comment.
+Print Assumptions C13_front_class_doc.
+Print Assumptions C13_front_function_doc.
+Print Assumptions C13_front_parameter_doc.
